@@ -131,5 +131,7 @@ func allTypedBimaps(r *ev.Run) int {
 	n += typedBimap(r, spell.Struct, spell.Array)
 	n += typedBimap(r, spell.Complex, spell.Pointers)
 	n += typedBimap(r, spell.Int8, spell.Struct)
+	n += typedBimap(r, spell.AnyAlike, spell.StringAlike)
+	n += typedBimap(r, spell.FloatAlike, spell.AnyAlike)
 	return n
 }
